@@ -14,6 +14,7 @@ import Gtree.Lemmas.VerifyOrder
 import Gtree.Lemmas.MkInterleave
 import Gtree.Lemmas.InterleavePerm
 import Gtree.Lemmas.GenFacts
+import Gtree.Lemmas.TreeFacts
 /-
   C10 — massive mode is the simple mode up to the order of roots: the parts that are logic.
   (1) Printer: with the mutex held around the printing of a whole root, the output of every schedule
@@ -450,5 +451,20 @@ theorem C10_facts_massive_generator_runs_the_same_row_step :
     coreOf (lookupL "rootGeneratorPipeline.worker" Facts.genSkeleton) = coreOf (lookupL "rootGeneratorSimple.generate" Facts.genSkeleton) ∧
     coreOf (lookupL "rootGeneratorPipeline.worker" Facts.genSkeleton) = coreOf (lookupL "rootGeneratorSimple.generateIter" Facts.genSkeleton) ∧
     (lookupL "rootGeneratorPipeline.worker" Facts.genSkeleton).contains "inputFormatError:row: row" = true := by decide
+
+end Gtree
+
+namespace Gtree
+
+/-- **C10 (facts: which mode runs).**  The massive pipeline is built exactly when the configuration carries the massive
+    option, by the same `initializeTree` every entry point goes through; otherwise the simple tree is. -/
+theorem C10_facts_massive_mode_is_chosen_by_the_option_alone :
+    lookupL "initializeTree" Facts.initTree =
+      ["if:cfg.massive", "return", "call:newTreePipeline", "return", "call:newTreeSimple"] ∧
+    Facts.entryTree.all (fun e => e.2.all (fun c =>
+      ["initializeTree.output", "initializeTree.mkdir", "initializeTree.verify", "initializeTree.walk",
+       "initializeTree.outputProgrammably", "initializeTree.mkdirProgrammably", "initializeTree.verifyProgrammably",
+       "initializeTree.walkProgrammably", "initializeTree.walkIterProgrammably"].contains c)) = true :=
+  ⟨entry_points_build_a_fresh_tree.2.2, by decide⟩
 
 end Gtree
